@@ -73,7 +73,7 @@ STRUCT_RULE = ('seeded random structural histories (<=3/4 ticks, 1-2 operations 
 prop('C09', 'exploration',
      'BOUNDED ONLY so far: after every batch the value tree equals the reference model of the documented meaning of the '
      'operations (double entry), all nodes not named by an operation keep identity and value, division conserves.',
-     drivers=[('bounded.struct', ['--prop', 'C09'])], rule=STRUCT_RULE)
+     drivers=[('bounded.struct', ['--prop', 'C09']), ('bounded.c17', [])], rule=STRUCT_RULE)
 prop('C10', 'other',
      'PROVED: Engine._delete_path removes from the published processes/steps/topology/flow exactly the entry at the deleted path (tdel) and forgets all and only the process and step paths that have the deleted path as a prefix (starts_with == prefix, proved); run_for drops the fronts of deleted paths and gives new paths a front at the current global time (part of the run_for invariant); Engine.apply_update (second contract #bookkeeping): published topology/flow == old ones with EVERY entry reported by Store.apply_update written in order, then every reported deletion removed; every reported process not below a deletion is scheduled, everything below a deletion is forgotten; a reported step without a reported flow entry becomes a legacy sequential step; _add_step_path/_add_process_path register exactly what they are given. NOT PROVED: what Store.apply_update / Store.move / insert / divide report (named, not specified). BOUNDED: after every batch of a structural history engine paths == processes/steps in the Store tree, published composite == state.get_*(), invocation counts; steps that join through _generate run in every later phase in the documented order.',
      drivers=[('bounded.struct', ['--prop', 'C10']), ('bounded.steps', ['--prop', 'C10'])], rule=STRUCT_RULE)
